@@ -391,5 +391,8 @@ func init() {
 		// one very long line (the model and the decoder must agree on it too)
 		long := "0 NOTE " + strings.Repeat("x", c.N(100000, 1000000)) + "\n1 CONT y\n"
 		c02all(c, long)
+		// the source's line pattern: Go's regexp engine vs the Lean semantics of the translated
+		// pattern vs the model's deterministic line parser
+		c02regexStream(c)
 	}
 }
